@@ -37,7 +37,7 @@ COMPONENTS = {"real": ["all shipped overlay classes with default settings", "Ove
 ASSUMPTIONS = ["'unloading has completed' = the awaitable returned by overlay.unload() is done",
                "the endpoint itself stays open (other overlays may use it); only the overlay's own sockets must be closed"]
 REACH = ["unload_with_pending_tasks", "unload_with_open_exit_transports", "unload_with_outstanding_caches", "late_datagrams_delivered",
-         "register_after_unload_refused", "tm_duplicate_name_refused", "tm_replace_ordered", "scenario:tunnel", "scenario:dht",
+         "register_after_unload_refused", "tm_duplicate_name_refused", "tm_replace_ordered", "tm_slow_cleanup", "scenario:tunnel", "scenario:dht",
          "scenario:attestation", "scenario:identity", "scenario:multi", "scenario:service", "scenario:dhtcrawl",
          "script_operation_abandoned_after_unload"]
 
@@ -49,6 +49,11 @@ STEPS = {"community": 5, "discovery": 3, "dht": 5, "dhtdiscovery": 7, "tunnel": 
 
 def cases(tier: str, base_seed: int):  # noqa: ANN201
     n = 0
+    # TaskManager histories (cheap): a first batch up front, more in the seeded stream
+    for i in range(48 if tier == "quick" else 400):
+        rng = random.Random(f"c11tm/{base_seed}/{i}")
+        yield {"scenario": "tm", "seed": base_seed + 500 + i, "knobs": {"timer_jitter": rng.choice([0.0, 0.001])},
+               "ops": [_tm_op(rng) for _ in range(rng.choice([4, 8, 20]))]}
     # an unload in the middle of an application-driven DHT crawl (requests outstanding, candidates left)
     for off in (0.02, 0.1, 0.5, 1.5, 4.0, 6.0):
         n += 1
@@ -58,7 +63,7 @@ def cases(tier: str, base_seed: int):  # noqa: ANN201
             for node in ((0, 2) if tier == "quick" else (0, 1, 2, 3)):
                 if scn == "dhtcrawl" and node != 0:
                     continue          # the other nodes of that scenario go offline
-                if scn == "service" and tier == "quick" and (step, node) not in ((1, 2), (4, 0)):
+                if scn == "service" and tier == "quick" and (step, node) not in ((0, 2), (2, 0), (4, 0)):
                     continue
                 n += 1
                 yield {"scenario": scn, "seed": base_seed + n, "knobs": {}, "node": node, "step": step, "offset": 0.0}
@@ -78,7 +83,8 @@ def cases(tier: str, base_seed: int):  # noqa: ANN201
 
 def _tm_op(rng: random.Random) -> dict:
     return {"op": rng.choice(["reg", "reg", "reg_delay", "reg_interval", "replace", "replace", "cancel", "advance", "dup"]),
-            "name": rng.choice(["a", "b"]), "d": rng.choice([0.0, 0.1, 0.5, 1.0]), "work": rng.choice([0.0, 0.2, 0.7])}
+            "name": rng.choice(["a", "b"]), "d": rng.choice([0.0, 0.1, 0.5, 1.0]), "work": rng.choice([0.0, 0.2, 0.7]),
+            "cleanup": rng.choice([0.0, 0.0, 0.0, 0.3])}
 
 
 # ------------------------------------------------------------------------------------------------ TaskManager family
@@ -98,7 +104,7 @@ def run_tm(c: Case, case: dict) -> dict:  # noqa: C901
         current: dict = {}      # name -> generation that holds the name
         replaced: dict = {}     # (name, new generation) -> generation it replaced
 
-        def make(name: str, work: float):  # noqa: ANN202
+        def make(name: str, work: float, cleanup: float = 0.0):  # noqa: ANN202
             gen[name] += 1
             g = gen[name]
 
@@ -115,6 +121,10 @@ def run_tm(c: Case, case: dict) -> dict:  # noqa: C901
                     if work:
                         await asyncio.sleep(work)
                 finally:
+                    if cleanup:
+                        # a task that needs time to wind down after it was cancelled (asynchronous clean-up)
+                        world.probe("tm_slow_cleanup")
+                        await asyncio.sleep(cleanup)
                     running[name].discard(g)
                     seq[0] += 1
                     log.append((seq[0], name, g, "last"))
@@ -125,7 +135,7 @@ def run_tm(c: Case, case: dict) -> dict:  # noqa: C901
             kind = op["op"]
             active = tm.is_pending_task_active(name)
             if kind in ("reg", "reg_delay", "reg_interval", "dup"):
-                body, g = make(name, op["work"])
+                body, g = make(name, op["work"], op.get("cleanup", 0.0))
                 kw = {}
                 if kind == "reg_delay":
                     kw["delay"] = op["d"] or 0.1
@@ -146,7 +156,7 @@ def run_tm(c: Case, case: dict) -> dict:  # noqa: C901
                         if tm.get_task(name) is not old or old.done():
                             c.violate("duplicate_name", "first_task_disturbed_by_refused_registration", name)
             elif kind == "replace":
-                body, g = make(name, op["work"])
+                body, g = make(name, op["work"], op.get("cleanup", 0.0))
                 if active and name in current:
                     replaced[(name, g)] = current[name]
                 cancel_requested.update(running[name])
